@@ -62,6 +62,28 @@ Theorem C01_list_delete : forall d pat,
 Proof. exact merge_list_delete_entry. Qed.
 Print Assumptions C01_list_delete.
 
+(* a list entry {$match: m, ...patch}: EVERY entry of the parent list that matches m, wherever it stands, is merged with
+   the patch (read without its $match key); the other entries and the order are unchanged; when nothing matches the
+   layer is rejected *)
+Theorem C01_list_match : forall d vm m,
+  has_map_bool vm "$replace" true = false -> lookup "$delete" vm = None -> lookup "$match" vm = Some m ->
+  has_key "$value" (remove "$match" vm) = false ->
+  merge' (VList d) (VList [VMap vm]) =
+    do r <- map_res (fun e => if vmatch e m then merge e (VMap vm) true else Ok e) (strip_required d);
+    if existsb (fun e => vmatch e m) (strip_required d) then Ok (VList r) else Err ENoMatch.
+Proof. exact merge_list_match_entry. Qed.
+Print Assumptions C01_list_match.
+
+(* {$match: m, $value: x}: the matching entries are merged with x (a scalar x replaces them) *)
+Theorem C01_list_match_value : forall d vm m,
+  has_map_bool vm "$replace" true = false -> lookup "$delete" vm = None -> lookup "$match" vm = Some m ->
+  has_key "$value" (remove "$match" vm) = true -> remove "$value" (remove "$match" vm) = [] ->
+  merge' (VList d) (VList [VMap vm]) =
+    do r <- map_res (fun e => if vmatch e m then value_patch e vm else Ok e) (strip_required d);
+    if existsb (fun e => vmatch e m) (strip_required d) then Ok (VList r) else Err ENoMatch.
+Proof. exact merge_list_match_value. Qed.
+Print Assumptions C01_list_match_value.
+
 (* a directive entry carrying extra keys is rejected *)
 Theorem C01_extra_keys : forall d pat k x, String.eqb "$delete" k = false -> String.eqb "$replace" k = false ->
   merge' (VList d) (VList [VMap [("$delete", pat); (k, x)]]) = Err EExtraKeys.
